@@ -534,52 +534,68 @@ Proof.
     destruct cs; [reflexivity|cbn in Hl; lia].
 Qed.
 
+(* the source has the repaired form of bucketType.reset (re-opened when the translator says otherwise) *)
+Lemma x_new_is_repaired : x_new = x_new_gen true true.
+Proof. reflexivity. Qed.
+
+(* the refill interval the bucket works with, and the tokens it holds when set to st *)
+Definition eff_interval (st : bstate) : Z := interval_of true st.
+Definition fresh_tokens (st : bstate) : Z := bs_max st - Z.min (bs_taken st) (bs_max st).
+
+(* any count >= 1 with any period 0 <= P <= 2^62 ns - also P < count - and any taken >= 0 *)
 Definition fresh_cfg (st : bstate) : Prop :=
-  1 <= bs_max st /\ 1 <= Z.quot (bs_period st) (bs_max st) /\ bs_period st <= capmax /\ 0 <= bs_taken st <= bs_max st.
+  1 <= bs_max st <= capmax /\ 0 <= bs_period st <= capmax /\ 0 <= bs_taken st.
 
 Lemma quot_cap p n : 1 <= n -> 0 <= p -> n * Z.quot p n <= p.
 Proof. intros. rewrite Z.quot_div_nonneg by lia. apply Z.mul_div_le. lia. Qed.
 
-Lemma fresh_period_nonneg st : fresh_cfg st -> 0 <= bs_period st.
+Lemma eff_interval_spec st : 1 <= bs_max st -> 0 <= bs_period st ->
+  1 <= eff_interval st /\ (bs_max st * eff_interval st <= bs_period st \/ eff_interval st = 1).
 Proof.
-  intros (H1 & H2 & _). destruct (Z.lt_ge_cases (bs_period st) 0); auto.
-  pose proof (Z.quot_opp_l (bs_period st) (bs_max st) ltac:(lia)).
-  pose proof (Z.quot_pos (- bs_period st) (bs_max st) ltac:(lia) ltac:(lia)). lia.
+  intros HM HP. unfold eff_interval, interval_of. pose proof (quot_cap (bs_period st) (bs_max st) HM HP).
+  pose proof (Z.quot_pos (bs_period st) (bs_max st) HP ltac:(lia)).
+  replace (0 <=? bs_period st) with true by lia. cbn [andb]. rewrite andb_true_r.
+  destruct (Z.eqb_spec (Z.quot (bs_period st) (bs_max st)) 0); split; try lia; auto.
 Qed.
 
 Lemma x_new_clean st t : fresh_cfg st -> maxd <= t ->
-  x_new st t = mkXL XNorm (bs_max st) (Z.quot (bs_period st) (bs_max st))
-                    ((bs_max st - bs_taken st) * Z.quot (bs_period st) (bs_max st)) t false.
+  x_new st t = mkXL XNorm (bs_max st) (eff_interval st) (fresh_tokens st * eff_interval st) t false.
 Proof.
-  intros F Ht. pose proof (fresh_period_nonneg st F) as HP. destruct F as (H1 & H2 & H3 & H4).
-  pose proof (quot_cap (bs_period st) (bs_max st) H1 HP) as HC.
-  unfold x_new. replace (0 <? bs_max st) with true by lia.
-  replace (Z.quot (bs_period st) (bs_max st) <=? 0) with false by lia.
-  set (I := Z.quot (bs_period st) (bs_max st)) in *.
+  intros ((H1 & H1') & (HP & HP') & HT) Ht. rewrite x_new_is_repaired.
+  destruct (eff_interval_spec st H1 HP) as [HI HC].
+  unfold x_new_gen, primed_of, fresh_tokens. fold (eff_interval st). replace (0 <? bs_max st) with true by lia.
+  replace (eff_interval st <=? 0) with false by lia.
+  set (I := eff_interval st) in *. set (j := Z.min (bs_taken st) (bs_max st)).
+  assert (0 <= j <= bs_max st) by (subst j; lia).
   unfold x_allow. cbn [xk]. unfold x_avail. cbn [xlast xc xfrac]. unfold xcap. cbn [xburst xI].
   unfold capmax, maxd in *.
+  assert (bs_max st * I <= 4611686018427387904) by (destruct HC as [HC| ->]; lia).
   rewrite (Z.min_r t 0) by lia. rewrite Z.sub_0_r. rewrite (Z.min_r t) by lia. rewrite Z.add_0_l.
   rewrite (Z.min_l (bs_max st * I)) by lia.
   replace (bs_max st * I <? 9223372036854775807) with true by lia.
-  replace ((bs_taken st <=? bs_max st) && ((0 <=? bs_max st * I - bs_taken st * I) || (false && false && (bs_max st * I - bs_taken st * I =? -1)))) with true by nia.
+  replace ((j <=? bs_max st) && ((0 <=? bs_max st * I - j * I) || (false && false && (bs_max st * I - j * I =? -1)))) with true by nia.
   cbn [snd]. f_equal. lia.
 Qed.
 
-(* SetBucketState to a configuration inside the domain leaves exactly N - taken tokens *)
+(* SetBucketState leaves exactly max 0 (N - taken) tokens *)
 Lemma xset_clean s t k st : fresh_cfg st -> maxd <= t -> fst (xset s t k st) = true ->
-  cleank (snd (xset s t k st)) k t (bs_max st) (Z.quot (bs_period st) (bs_max st)) (bs_max st - bs_taken st).
+  cleank (snd (xset s t k st)) k t (bs_max st) (eff_interval st) (fresh_tokens st).
 Proof.
   intros F Ht. unfold xset, set_state. destruct (bucket_by_key x_new s t k) as [[b|] s1]; cbn [fst snd]; [|discriminate].
   intros _. exists st. rewrite bk_put, key_eqb_refl, (x_new_clean st t F Ht). reflexivity.
 Qed.
 
+Lemma fresh_tokens_range st : fresh_cfg st -> 0 <= fresh_tokens st <= bs_max st.
+Proof. intros ((H1 & _) & _ & HT). unfold fresh_tokens. lia. Qed.
+
 Theorem fresh_admits_exactly_N_proved : forall s t k st cs,
   fresh_cfg st -> maxd <= t -> fst (xset s t k st) = true ->
-  length cs = (Z.to_nat (bs_max st - bs_taken st) + 1)%nat ->
-  take_seq (snd (xset s t k st)) t k cs = repeat true (Z.to_nat (bs_max st - bs_taken st)) ++ [false].
+  length cs = (Z.to_nat (fresh_tokens st) + 1)%nat ->
+  take_seq (snd (xset s t k st)) t k cs = repeat true (Z.to_nat (fresh_tokens st)) ++ [false].
 Proof.
-  intros s t k st cs F Ht Hf Hl. pose proof F as (H1 & H2 & H3 & H4).
-  apply (take_seq_clean k t (bs_max st) (Z.quot (bs_period st) (bs_max st)) H2 cs _ (bs_max st - bs_taken st)); [lia| |exact Hl].
+  intros s t k st cs F Ht Hf Hl. pose proof F as ((H1 & _) & (HP & _) & _).
+  destruct (eff_interval_spec st H1 HP) as [HI _].
+  apply (take_seq_clean k t (bs_max st) (eff_interval st) HI cs _ (fresh_tokens st)); [apply fresh_tokens_range; auto| |exact Hl].
   apply xset_clean; auto.
 Qed.
 
@@ -593,14 +609,15 @@ Qed.
 
 Theorem first_use_admits_exactly_N_proved : forall s t k st cs,
   fresh_cfg st -> maxd <= t -> bk s k = None -> aget N.eqb (fst k) (s_d s) = Some st ->
-  length cs = (Z.to_nat (bs_max st - bs_taken st) + 1)%nat ->
-  take_seq s t k cs = repeat true (Z.to_nat (bs_max st - bs_taken st)) ++ [false].
+  length cs = (Z.to_nat (fresh_tokens st) + 1)%nat ->
+  take_seq s t k cs = repeat true (Z.to_nat (fresh_tokens st)) ++ [false].
 Proof.
-  intros s t k st cs F Ht Hb Hd Hl. pose proof F as (H1 & H2 & H3 & H4).
+  intros s t k st cs F Ht Hb Hd Hl. pose proof F as ((H1 & _) & (HP & _) & _).
+  destruct (eff_interval_spec st H1 HP) as [H2 _].
   destruct cs as [|c cs]; [cbn in Hl; lia|].
   assert (E : take_seq s t k (c :: cs) = take_seq (put_b s k (x_new st t, st)) t k (c :: cs)).
   { cbn [take_seq]. rewrite (xtake_created s t c k [] 1 st Hb Hd). reflexivity. }
-  rewrite E. apply (take_seq_clean k t (bs_max st) (Z.quot (bs_period st) (bs_max st)) H2 (c :: cs) _ (bs_max st - bs_taken st)); [lia| |exact Hl].
+  rewrite E. apply (take_seq_clean k t (bs_max st) (eff_interval st) H2 (c :: cs) _ (fresh_tokens st)); [apply fresh_tokens_range; auto| |exact Hl].
   exists st. rewrite bk_put, key_eqb_refl, (x_new_clean st t F Ht). reflexivity.
 Qed.
 
@@ -699,8 +716,8 @@ Qed.
 
 Lemma x_new_zero st t : bs_max st = 0 -> 0 <= bs_taken st -> xk (x_new st t) = XZero /\ xburst (x_new st t) = 0.
 Proof.
-  intros HM HT. unfold x_new. rewrite HM. cbn [Z.ltb Z.compare].
-  destruct (allow_zero false (mkXL XZero 0 0 0 0 false) t (bs_taken st) eq_refl eq_refl HT) as (K & B & _). auto.
+  intros HM HT. rewrite x_new_is_repaired. unfold x_new_gen, primed_of. rewrite HM. cbn [Z.ltb Z.compare].
+  destruct (allow_zero false (mkXL XZero 0 0 0 0 false) t (Z.min (bs_taken st) 0) eq_refl eq_refl ltac:(lia)) as (K & B & _). auto.
 Qed.
 
 (* both ways a zero-limit bucket comes into being *)
@@ -719,7 +736,7 @@ Qed.
 
 (* ---------- every reachable state meets the hypotheses above ---------- *)
 Definition binv (t : Z) (l : xlim) : Prop := xk l = XNorm -> lim_ok l /\ xlast l <= t.
-Definition wf_cfg (st : bstate) : Prop := bs_period st <= capmax /\ 0 <= bs_max st.
+Definition wf_cfg (st : bstate) : Prop := bs_period st <= capmax /\ 0 <= bs_max st <= capmax.
 Definition good (t : Z) (s : xsys) : Prop :=
   Forall (fun e => binv t (fst (snd e))) (s_b s) /\ Forall (fun e => wf_cfg (snd e)) (s_d s).
 Definition wf_in (i : xin) : Prop :=
@@ -741,15 +758,16 @@ Qed.
 
 Lemma x_new_binv st t : wf_cfg st -> 0 <= t -> binv t (x_new st t).
 Proof.
-  intros [HP HM] Ht. unfold x_new. apply (x_allow_binv false _ 0 t); auto.
+  intros [HP [HM HM']] Ht. rewrite x_new_is_repaired. unfold x_new_gen. apply (x_allow_binv false _ 0 t); auto.
   intros K. cbn [xk] in K. destruct (Z.ltb_spec 0 (bs_max st)) as [M|M]; [|discriminate].
-  destruct (Z.leb_spec (Z.quot (bs_period st) (bs_max st)) 0) as [I|I]; [discriminate|].
+  destruct (Z.leb_spec (interval_of true st) 0) as [I|I]; [discriminate|].
   assert (0 <= bs_period st).
-  { destruct (Z.lt_ge_cases (bs_period st) 0); auto.
+  { unfold interval_of in I. destruct (Z.lt_ge_cases (bs_period st) 0); auto.
+    replace (0 <=? bs_period st) with false in I by lia. rewrite andb_false_r in I.
     pose proof (Z.quot_opp_l (bs_period st) (bs_max st) ltac:(lia)).
     pose proof (Z.quot_pos (- bs_period st) (bs_max st) ltac:(lia) ltac:(lia)). lia. }
-  pose proof (quot_cap (bs_period st) (bs_max st) ltac:(lia) ltac:(lia)).
-  unfold lim_ok, xcap; cbn. repeat split; lia.
+  destruct (eff_interval_spec st ltac:(lia) H) as [HI HC]. unfold eff_interval in *.
+  unfold lim_ok, xcap; cbn. repeat split; try lia.
 Qed.
 
 Lemma aget_in {V} k (m : list (key * V)) v : aget key_eqb k m = Some v -> exists k', In (k', v) m.
@@ -914,4 +932,18 @@ Proof.
   destruct (req_keys ls q) as [|k0 r]; [discriminate|].
   destruct (xtake s t coins (k0 :: r) 1) as [[ok exc1] s1] eqn:ET. inversion E; subst. destruct ok; [discriminate|].
   exact (all_or_nothing_proved s t coins (k0 :: r) 1 false exc s' k l ET ltac:(lia) Hb K OK L).
+Qed.
+
+(* a declared rate above one operation per ns (0 <= P < N): the bucket works at 1 token per ns *)
+Lemma sub_ns_interval_is_clamped st : 1 <= bs_max st -> 0 <= bs_period st < bs_max st -> eff_interval st = 1.
+Proof.
+  intros HM HP. unfold eff_interval, interval_of. rewrite (Z.quot_small (bs_period st) (bs_max st)) by lia.
+  replace (0 <=? bs_period st) with true by lia. reflexivity.
+Qed.
+
+Theorem sub_ns_bucket_proved : forall st t, fresh_cfg st -> bs_period st < bs_max st -> maxd <= t ->
+  x_new st t = mkXL XNorm (bs_max st) 1 (fresh_tokens st) t false.
+Proof.
+  intros st t F HP Ht. pose proof F as ((H1 & _) & (H0 & _) & _).
+  rewrite (x_new_clean st t F Ht), (sub_ns_interval_is_clamped st H1 ltac:(lia)), Z.mul_1_r. reflexivity.
 Qed.
